@@ -242,7 +242,7 @@ class Party(sut.BaseAlgorithm):
             for name in ("constraint_matrix", "constraint_limits", "magnitudes", "phases", "voltages", "max_pilot",
                          "min_pilot", "is_continuous"):
                 a = getattr(inf, name, None)
-                if isinstance(a, np.ndarray) and a.size:
+                if isinstance(a, np.ndarray) and a.size and a.flags.writeable:
                     a[...] = (False if a.dtype == bool else -999)
             for name in ("constraint_ids", "constraint_index", "station_ids", "evse_index"):
                 a = getattr(inf, name, None)
@@ -253,7 +253,7 @@ class Party(sut.BaseAlgorithm):
             ap = getattr(inf, "allowable_pilots", None)
             if ap is not None:
                 for a in ap:
-                    if isinstance(a, np.ndarray) and a.size:
+                    if isinstance(a, np.ndarray) and a.size and a.flags.writeable:
                         a[...] = -1
                 ap.append(np.array([1, 2, 3]))
             d = getattr(inf, "_station_ids_dict", None)
@@ -328,6 +328,8 @@ class Party(sut.BaseAlgorithm):
             ctx.fired("crash")
             rec["crashed"] = True
             raise SchedulerCrash(fault)
+        if self.sc["party"].get("reverse_keys") and isinstance(sched, dict):
+            sched = dict(reversed(list(sched.items())))
         rec["schedule"] = {k: [float(x) for x in v] for k, v in sched.items()}
         rec["key_order"] = list(sched.keys())
         rec["completed"] = True
